@@ -134,7 +134,8 @@ void generate(uint64_t seed, const Str& profile, Desc& d, bool exceptions) {
 
     // group names (unique in the non-filter profiles)
     Vec<Str> gnames, gfiles;
-    for (int g = 0; g < nGroups; g++) { gnames.push_back(pickName(world, f, "G", g, true)); gfiles.push_back(f.special_xml || f.special_tc ? pickName(world, f, "dir/f", g, false) + ".cpp" : sfmt("f%d.cpp", g)); }
+    bool emptyGroupName = (f.alphaNames && world.chance(1, 8)) || ((f.teamcity || f.junit) && world.chance(1, 12));      // shells built through the API may carry the group name ""
+    for (int g = 0; g < nGroups; g++) { gnames.push_back(pickName(world, f, "G", g, true)); if (emptyGroupName && world.chance(1, 3)) gnames.back() = ""; gfiles.push_back(f.special_xml || f.special_tc ? pickName(world, f, "dir/f", g, false) + ".cpp" : sfmt("f%d.cpp", g)); }
     if ((f.junit || f.teamcity) && nGroups > 1) for (int g = 0; g < nGroups; g++) gnames[g] += sfmt("_%d", g);   // keep group names distinct
     if (f.special_tc) for (int g = 0; g < nGroups; g++) if (world.chance(1, 2)) gfiles[g] = Str("d/it's[") + (char)('a' + g) + "]|x.cpp";
 
